@@ -85,7 +85,7 @@ class Check(CheckBase):
         cases = []
         quick = self.tier == 'quick'
         # adapter-level cases, batched (one case = one (min,max) with a batch of streams)
-        reps = 1 if quick else 12
+        reps = 1 if quick else 40
         for rep_i in range(reps):
             for (mn, mx) in pairs:
                 cases.append({'kind': 'adapter', 'min': mn, 'max': mx,
